@@ -107,7 +107,8 @@ def pl(t):
     """Prolog text. Operators only for the grammar/control constructs (always parenthesised)."""
     k = t[0]
     if k == 'v':
-        return t[1]
+        # the unbound list elements of the "generate" queries occur once: written anonymously
+        return "_" if t[1].startswith("_E") else t[1]
     if k == 'i':
         return str(t[1])
     if k == 'str':
@@ -700,9 +701,9 @@ def build_case(cid, rules, bad, queries, features):
         tmpl = S('v', *[V(v) for v in vs]) if vs else A('v')
         if mode == 'inline':
             if s == NIL:
-                qtext = "%s, phrase(%s, %s), V = %s." % (pl(pre), pl(body), pl(s0), pl(tmpl))
+                qtext = "%s, phrase(%s, %s), copy_term(%s, V)." % (pl(pre), pl(body), pl(s0), pl(tmpl))
             else:
-                qtext = "%s, phrase(%s, %s, %s), V = %s." % (pl(pre), pl(body), pl(s0), pl(s), pl(tmpl))
+                qtext = "%s, phrase(%s, %s, %s), copy_term(%s, V)." % (pl(pre), pl(body), pl(s0), pl(s), pl(tmpl))
             mpre, mbody = pre, body
         else:
             bvs = term_vars(body, [])
@@ -712,9 +713,9 @@ def build_case(cid, rules, bad, queries, features):
             call = S("bd%d_%s" % (k, cid), V('G'), bv)
             if s == NIL and k % 2 == 0:
                 # run-time phrase/2 (a literal phrase/2 goal is always rewritten to phrase/3 by goal expansion)
-                qtext = "%s, %s, Ph = phrase, call(Ph, G, %s), V = %s." % (pl(pre), pl(call), pl(s0), pl(tmpl))
+                qtext = "%s, %s, Ph = phrase, call(Ph, G, %s), copy_term(%s, V)." % (pl(pre), pl(call), pl(s0), pl(tmpl))
             else:
-                qtext = "%s, %s, phrase(G, %s, %s), V = %s." % (pl(pre), pl(call), pl(s0), pl(s), pl(tmpl))
+                qtext = "%s, %s, phrase(G, %s, %s), copy_term(%s, V)." % (pl(pre), pl(call), pl(s0), pl(s), pl(tmpl))
             mpre, mbody = S(',', pre, call), V('G')
         qlines.append((lid, qtext, mode, kind, mpre, mbody, s0, s, tmpl, has_cut(body)))
     text = "".join(pl(r) + ".\n" for r in rules) + "".join(pl(f) + ".\n" for f in facts + inis)
